@@ -19,6 +19,7 @@ func ribcsRun(args []string) error {
 	fs := flag.NewFlagSet("ribcs-run", flag.ExitOnError)
 	in := fs.String("in", "", "file of TLC-emitted schedules (@@{...} per line)")
 	out := fs.String("out", "", "trace file (NDJSON)")
+	viaServer := fs.Bool("viaserver", true, "also drive the dangling-entry scenario through the real server (two Modify sessions)")
 	maxStalls := fs.Int("maxstalls", 3, "stop after that many stalled walks")
 	fs.Parse(args)
 	w, err := os.Create(*out)
@@ -56,6 +57,9 @@ func ribcsRun(args []string) error {
 		if !rn.Run(wk) {
 			unclean++
 		}
+	}
+	if *viaServer {
+		rn.RunViaServer()
 	}
 	fmt.Printf("{\"walks\":%d,\"steps\":%d,\"events\":%d,\"stalls\":%d,\"unclean\":%d,\"skipped\":%d,\"diverged\":%d}\n", rn.Walks, rn.Steps, sink.N, rn.Stalls, unclean, skipped, rn.Diverged)
 	return nil
